@@ -428,3 +428,20 @@ Section CR.
     - exact Hf.
   Qed.
 End CR.
+
+(* ---- the hypothesis is necessary: capture of a user variable named like an alias ---- *)
+Open Scope string_scope.
+Definition cr_capture_body : list gassign :=
+  [ {| ga_var := "x"; ga_cond := CAtom (EMul (EVar "_r1") (EVar "y")) Cgt (EMul (EVar "x") (EVar "_r1"));
+       ga_default := "x"; ga_rhs := RDet (EConst (mkq 1 1)) |};
+    {| ga_var := "z"; ga_cond := CTrue; ga_default := "z"; ga_rhs := RDet (EVar "_r1") |} ].
+Definition cr_capture_state : state := upd (upd st0 "_r1" (mkq 1 1)) "y" (mkq 0 1).
+(* with the counter at 1 the alias `_r1 = _r1*y - x*_r1` overwrites the user's `_r1`
+   (1 in the source state): z = _r1 is 1 in the source, 0 after the pass *)
+Theorem cond_reduce_needs_wf :
+  wf_cr 1 cr_capture_body = false /\
+  E (exec_gas no_law (fst (cond_reduce 1 cr_capture_body)) cr_capture_state) (fun s => s "z")
+  <> E (exec_gas no_law cr_capture_body cr_capture_state) (fun s => s "z").
+Proof.
+  split; [vm_compute; reflexivity|]. intros H. apply (f_equal qnum) in H. vm_compute in H. discriminate.
+Qed.
